@@ -1201,6 +1201,10 @@ fn gen_pyde(rng: &mut Rng, n: usize, tier: &str) -> Vec<String> {
     for len in 1..=maxlen {
         for x in 0..(1u64 << (8 * len)) {
             let b: Vec<u8> = (0..len).rev().map(|i| (x >> (8 * i)) as u8).collect();
+            if len == 3 && b[0] < 0x80 {
+                // a one-byte atom followed by two unread bytes: covered by the 1- and 2-byte inputs
+                continue;
+            }
             push(&mut out, &b);
         }
     }
